@@ -23,6 +23,7 @@ EXPLANATION = (
     ' Added after seed round 3: (9) ACCUM on calc_coords / calc_line_pos; (10) OFFSTEP on the position functions (End/Home never return `offset +- 1`); (11) after set_edit_text(), which clamps the cursor, the cursor is not updated relative to self.edit_pos in the same statement sequence.'
     ' Round 4: (12) LOOPFRESH on calc_coords; (13) the row bounds of Edit.move_cursor_to_coords (C09.10); (14) the UTF-8 scan bound (C11.12).'
     ' Round-4 triage: (15) case-mapped alphabet tests are conjoined with isascii(), every accepting return of NumEdit.valid_char depends on the cursor position (nothing in front of a leading minus sign), validating regexes use fullmatch and re.ASCII with IGNORECASE; C10.6 now accepts any accepting return that is dominated by a bounding test (false alarm on the repaired valid_char corrected). Round 5: (16) column tests against the end of a layout segment are half-open.'
+    ' Round 6: (17) shift_line: after an existing padding segment was folded into the amount every result is built from the line without that segment.'
 )
 NOT_DECIDED = "Equality with the reference editor: row moves, preferred-column arithmetic, clip-mode view shift, click-to-offset mapping, leading-zero trimming arithmetic of IntEdit/NumEdit."
 ASSUMPTIONS = []
@@ -404,6 +405,40 @@ def rule_segment_half_open(ctx: Ctx) -> RuleResult:
     return rr
 
 
+from ..tables import INV_RENDER_EXCEPTIONS as _INV_RENDER_EXC  # noqa: E402
+
+
+def rule_shift_fold(ctx: Ctx) -> RuleResult:
+    """Edit scrolls the cursor row with shift_line(line, amount).  A line that already starts with a padding segment
+    (n, None) gets that padding *folded* into the amount (`amount += segs[0][0]`): from then on the old padding is
+    accounted for in `amount` and must not be part of any result - every return reachable from the fold builds its
+    value from the line without its first segment (`segs[1:]`), also when the sum is 0 (shift cancels the padding:
+    right-aligned Edit whose text just fills the row - the cursor would be reported at x == maxcol)."""
+    from ..rules.defuse import DefUse
+
+    p = ctx.p
+    rr = RuleResult("PASS", "C10.17", "shift_line: once an existing padding segment is folded into the amount, no result still contains that segment", floor=2)
+    fi = p.func("urwid.text_layout.shift_line")
+    du = DefUse(fi)
+    cfg = du.cfg
+    segs = fi.params[0]
+    folds = [n for n in cfg.nodes if isinstance(n.ast, ast.AugAssign) and isinstance(n.ast.op, ast.Add) and any(isinstance(x, ast.Subscript) and isinstance(x.value, ast.Subscript) and isinstance(x.value.value, ast.Name) and x.value.value.id == segs for x in ast.walk(n.ast.value))]
+    if not folds:
+        raise AnalysisError("shift_line: the statement folding the existing padding into the amount (`amount += segs[0][0]`) was not found")
+    for f in folds:
+        for r in [n for n in cfg.reachable([f], labels=("n", "T", "F")) if n.kind == "return" and n.ast.value is not None]:
+            val = du.expand(r.ast.value, r)
+            txt = ast.unparse(val)
+            # every mention of the line in the result is the tail `segs[1:]`
+            whole = [x for x in ast.walk(val) if isinstance(x, ast.Name) and x.id == segs]
+            tails = [x for x in ast.walk(val) if isinstance(x, ast.Subscript) and isinstance(x.value, ast.Name) and x.value.id == segs and isinstance(x.slice, ast.Slice) and isinstance(x.slice.lower, ast.Constant) and x.slice.lower.value == 1 and x.slice.upper is None]
+            ok = bool(whole) and len(whole) == len(tails)
+            rr.inst(f"return {norm(r.ast.value, 40)}", True, {"return": norm(r.ast, 60), "value": txt[:80], "old_padding_dropped": ok})
+            if not ok:
+                rr.add(finding("PASS", fi, r.ast, f"`{norm(r.ast, 60)}` is reachable after the existing padding was folded into the amount (`{norm(f.ast, 40)}`) but returns the line with its first segment (value `{txt[:60]}`): the old padding is applied on top of the amount that already contains it - when the shift cancels the padding exactly the row comes back unchanged and the cursor of a right- / centre-aligned Edit lands outside the widget", construct="folded padding segment kept in the result"))
+    return rr
+
+
 def run(ctx: Ctx):
     p = ctx.p
     return [
@@ -411,6 +446,7 @@ def run(ctx: Ctx):
         rule_signal_order(ctx),
         inv.run_inv(p, "C10.3a", floor_classes=5, floor_nontrivial=5, exceptions=INV_EXCEPTIONS, only_classes=set(FAMILY)),
         ret.run_ret(p, "C10.3b", floor=3, only_classes=["Edit"]),
+        inv.run_inv_render_write(p, "C10.18", floor=1, exceptions=_INV_RENDER_EXC, only_classes=set(FAMILY)),
         rule_char_moves(ctx),
         rule_pref_col_reset(ctx),
         rule_alphabet(ctx),
@@ -418,6 +454,7 @@ def run(ctx: Ctx):
         rule_segment_half_open(ctx),
         rule_same_text(ctx),
         rule_clamped_cursor_read(ctx),
+        rule_shift_fold(ctx),
         _row_range(ctx),
         _utf8_bound(ctx),
         loopfresh.run_loopfresh(p, "C10.12", "C10", floor=1),
@@ -429,6 +466,8 @@ def run(ctx: Ctx):
 _F = "urwid/widget/edit.py"
 _N = "urwid/numedit.py"
 MUTANTS = [
+    Mut("shift-line-keeps-cancelled-padding", "urwid/text_layout.py", "shift_line", "        if amount:\n            return [(amount, None)] + segs[1:]\n        return segs[1:]\n", "        if amount:\n            segs = segs[1:]\n", "PASS|text_layout.shift_line|folded padding segment kept in the result"),
+    Mut("twin-shift-line-tail-variable", "urwid/text_layout.py", "shift_line", "        if amount:\n            return [(amount, None)] + segs[1:]\n        return segs[1:]\n", "        rest = segs[1:]\n        if amount:\n            return [(amount, None), *rest]\n        return rest\n", twin=True),
     Mut("line-pos-closed-segment-end", "urwid/text_layout.py", "calc_line_pos", "if current_sc <= pref_col < current_sc + s.sc:", "if current_sc <= pref_col <= current_sc + s.sc:", "POSBOUND|text_layout.calc_line_pos"),
     Mut("twin-line-pos-mirrored", "urwid/text_layout.py", "calc_line_pos", "if current_sc <= pref_col < current_sc + s.sc:", "if current_sc + s.sc > pref_col >= current_sc:", twin=True),
     Mut("numedit-case-mapped-membership", _N, "NumEdit.valid_char", "if ch in self._allowed or (ch.isascii() and ch.upper() in self._allowed):", "if ch.upper() in self._allowed:", "ALPHABET|numedit.NumEdit.valid_char|case-mapped"),
